@@ -411,6 +411,13 @@ impl<W: Write> Ctx<W> {
                         push_unique(&mut ps, v);
                     }
                 }
+                // build metadata never changes the answer: add suffixed copies of some probes
+                let n0 = ps.len();
+                for k in 0..n0.min(8) {
+                    let mut w = ps[(k * 3) % n0].clone();
+                    w.build = vec![Identifier::AlphaNumeric("b".into()), Identifier::Numeric(k as u64)];
+                    push_unique(&mut ps, w);
+                }
                 let r2 = ra.clone();
                 let obs = self.call("satisfies", move || {
                     ps.iter()
@@ -520,6 +527,47 @@ impl<W: Write> Ctx<W> {
                 if let Some((mx, mn, sat)) = r {
                     self.emit(json!({"ev":"maxsat","a":a,"list":list.iter().map(ver_to_json).collect::<Vec<_>>(),
                         "sat":sat,"max":mx,"min":mn}));
+                }
+            }
+            "concat" => {
+                // C02: a, b, `a b` / `b a` or `a||b` / `b || a`, all parsed from the same texts
+                let kind = st.get("kind").and_then(|x| x.as_str()).unwrap_or("and").to_string();
+                let ta = st.get("a").and_then(unbytes).unwrap_or_default();
+                let tb = st.get("b").and_then(unbytes).unwrap_or_default();
+                let (tab, tba) = if kind == "and" {
+                    (format!("{} {}", ta, tb), format!("{}  {}", tb, ta))
+                } else {
+                    (format!("{}||{}", ta, tb), format!("{} || {}", tb, ta))
+                };
+                let texts = [ta.clone(), tb.clone(), tab.clone(), tba.clone()];
+                let parsed = self.call("Range::parse", || texts.iter().map(|t| Range::parse(t).ok()).collect::<Vec<_>>());
+                let parsed = match parsed {
+                    Some(p) => p,
+                    None => return,
+                };
+                let structs: Vec<Bounds> = parsed.iter().map(|r| r.as_ref().map(|x| x.verif_bounds()).unwrap_or_default()).collect();
+                let mut ps: Vec<Version> = match st.get("vs").and_then(|x| x.as_array()) {
+                    Some(l) => l.iter().filter_map(ver_from_json).collect(),
+                    None => vec![],
+                };
+                for v in probes(&[&structs[0], &structs[1], &structs[2], &structs[3]], self.probe_cap) {
+                    push_unique(&mut ps, v);
+                }
+                let p2 = parsed.clone();
+                let obs = self.call("satisfies", move || {
+                    ps.iter()
+                        .map(|v| {
+                            let f = |i: usize| p2[i].as_ref().map(|r| r.satisfies(v)).unwrap_or(false);
+                            json!({"v":ver_to_json(v),"a":f(0),"b":f(1),"ab":f(2),"ba":f(3)})
+                        })
+                        .collect::<Vec<_>>()
+                });
+                if let Some(obs) = obs {
+                    let ok = |i: usize| if parsed[i].is_some() { "ok" } else { "err" };
+                    self.emit(json!({"ev":"concat","kind":kind,"ta":bytes(&ta),"tb":bytes(&tb),"tab":bytes(&tab),"tba":bytes(&tba),
+                        "oa":ok(0),"ob":ok(1),"oab":ok(2),"oba":ok(3),
+                        "A":bounds_to_json(&structs[0]),"B":bounds_to_json(&structs[1]),
+                        "AB":bounds_to_json(&structs[2]),"BA":bounds_to_json(&structs[3]),"obs":obs}));
                 }
             }
             "rany" => {
@@ -858,13 +906,45 @@ impl<W: Write> Ctx<W> {
                     }
                 }
             }
-            // a single step given directly as the case
+            // a single step given directly as the case, optionally followed by standard follow-ups on register 1
             _ => {
                 let mut st = case.clone();
                 if let Some(m) = st.as_object_mut() {
                     m.insert("c".into(), json!(op));
                 }
                 self.step(&st);
+                let then: Vec<String> = case
+                    .get("then")
+                    .and_then(|x| x.as_array())
+                    .map(|l| l.iter().filter_map(|x| x.as_str().map(|s| s.to_string())).collect())
+                    .unwrap_or_default();
+                for t in then {
+                    match t.as_str() {
+                        "print" => self.step(&json!({"c":"print","dst":2,"a":1})),
+                        "minv" => self.step(&json!({"c":"minv","a":1})),
+                        "sat" => self.step(&json!({"c":"sat","a":1})),
+                        "maxsat" => {
+                            // the probe versions of the case as an unsorted list with duplicates and build-only variants
+                            let mut list: Vec<Value> = case.get("vs").and_then(|x| x.as_array()).cloned().unwrap_or_default();
+                            let n = list.len();
+                            for k in 0..n.min(6) {
+                                let mut d = list[(k * 7) % n].clone();
+                                if k % 2 == 0 {
+                                    d["bld"] = json!([{"k":"a","s":[98]},{"k":"n","d":[k as u64]}]);
+                                }
+                                list.insert((k * 5) % (n + k), d);
+                            }
+                            list.truncate(24);
+                            self.step(&json!({"c":"maxsat","a":1,"list":list.clone()}));
+                            list.reverse();
+                            let cut = list.len() / 3;
+                            list.rotate_left(cut);
+                            self.step(&json!({"c":"maxsat","a":1,"list":list}));
+                            self.step(&json!({"c":"maxsat","a":1,"list":[]}));
+                        }
+                        _ => self.skip("unknown-then"),
+                    }
+                }
             }
         }
     }
